@@ -7,6 +7,7 @@ import Hy.Drv.Frame
 import Hy.Drv.Speedtest
 import Hy.Drv.Rate
 import Hy.Drv.Frag
+import Hy.Drv.Salamander
 
 open Hy.Drv
 
@@ -34,4 +35,5 @@ def main (args : List String) : IO UInt32 := do
   | ["rate"] => loopPure stdin stdout Rate.step; return 0
   | ["frag"] => loopPure stdin stdout Frag.step; return 0
   | ["defrag"] => loopState stdin stdout Frag.stepSt Frag.init; return 0
+  | ["salamander"] => loopPure stdin stdout Salamander.step; return 0
   | _ => IO.eprintln "usage: hydrv <component>"; return 2
